@@ -717,6 +717,8 @@ GENERIC_SUMMARIES = {
     "std::cmp::Ordering::reverse": _s_ord_reverse,
     "std::bool::<impl bool>::then": _s_bool_then,
     "std::bool::<impl bool>::then_some": _s_bool_then_some,
+    "core::bool::<impl bool>::then": _s_bool_then,
+    "core::bool::<impl bool>::then_some": _s_bool_then_some,
     "std::option::Option::<T>::is_some": _s_is_some,
     "std::option::Option::<T>::is_none": _s_is_none,
     "std::cmp::min": _s_min,
